@@ -1,20 +1,100 @@
 (* C13 — WebSocket sessions close cleanly in every interleaving.
    Only statements; each closed by `exact` of a lemma proved in Proofs/WsSession*.v.
-   `reach c s`: s is reachable from the initial session state by any sequence of events
-   (application calls from up to four tasks, peer frames, connection loss, task cancellation, clock
-   advances, and the event loop running its next ready callback) — Model/WsSession.v. *)
+
+   `reach c s`: s is reachable from the initial session state of configuration c (side, autoclose, autoping,
+   heartbeat, close timeout, receive timeout) by any sequence of events: application calls (receive, close,
+   send/ping/pong) from up to four tasks, peer frames (text, ping, pong, close, malformed) delivered now or as a
+   queued I/O callback, connection loss, task cancellation, clock advances (due timers are queued in deadline
+   order) and the event loop running its next ready callback (FIFO) — Model/WsSession.v.
+   `finished c s`: the session is closed and no task is still inside close().
+   `peer_closes s`: the codes of the close frames the peer's protocol handed to the reader (ghost). *)
 From Coq Require Import List NArith Bool Arith.
 Import ListNotations.
-From AV Require Import Generated.WsSessionGen Model.WsSession Proofs.WsSessionWire.
+From AV Require Import Generated.WsSessionGen Model.WsSession Proofs.WsSessionWire Proofs.WsSessionTransport
+  Proofs.WsSessionWitness.
 Open Scope N_scope.
 
-(* At most one close frame is ever written, on both sides, in every interleaving. *)
+(* ---- at most one close frame, no data frame after it: full, both sides, all interleavings ---------- *)
 Theorem C13_one_close_frame : forall c s, reach c s -> (count_close (sent s) <= 1)%nat.
 Proof. exact one_close_frame. Qed.
 Print Assumptions C13_one_close_frame.
 
-(* No data frame follows the close frame. *)
 Theorem C13_no_data_after_close : forall c s, reach c s ->
   forall l1 code l2, sent s = l1 ++ FClose code :: l2 -> ~ In FText l2.
 Proof. exact (fun c s H => ok_sent_spec _ (no_data_after_close c s H)). Qed.
 Print Assumptions C13_no_data_after_close.
+
+(* ---- the transport is closed once the session is closed --------------------------------------------
+   Full statement: forall c s, reach c s -> finished c s -> tr_closing s = true.
+   Refuted by the faithful server model (replayed on the code: corpus/C13/server_cancelled_close_at_close_wait.json):
+   close() cancelled at `await self._close_wait` leaves _closed = True with the transport open. *)
+Theorem C13_closed_implies_transport_closed_refuted :
+  ~ (forall c s, reach c s -> finished c s -> tr_closing s = true).
+Proof. exact transport_closed_refuted. Qed.
+Print Assumptions C13_closed_implies_transport_closed_refuted.
+
+(* Proved in its place, for every reachable state of both sides: unless that cancellation happened (ghost flag
+   cw_leak, set only on that server path), closed + no close() in progress implies transport closed.
+   Missing for the full statement: the server's `await self._close_wait` would have to sit inside the try. *)
+Theorem C13_closed_implies_transport_closed_partial : forall c s,
+  reach c s -> finished c s -> cw_leak s = false -> tr_closing s = true.
+Proof. exact transport_closed_partial. Qed.
+Print Assumptions C13_closed_implies_transport_closed_partial.
+
+(* ---- the reported close code ------------------------------------------------------------------------
+   Full statement: in a finished session close_code is 1006 or a code the peer sent in a close frame.
+   Refuted on the server (close() racing a blocked receive(): 1000 with no peer close frame;
+   corpus/C13/server_close_while_receive_blocked.json, server_close_racing_eof.json) and on the client
+   (malformed frame: the protocol-error code we sent is reported; corpus/C13/client_protocol_error_code.json). *)
+Theorem C13_close_code_refuted :
+  ~ (forall c s, reach c s -> finished c s ->
+       close_code s = Some ws_close_abnormal \/ exists x, close_code s = Some x /\ In x (peer_closes s)).
+Proof. exact close_code_refuted. Qed.
+Print Assumptions C13_close_code_refuted.
+
+Theorem C13_close_code_refuted_client :
+  ~ (forall s, reach cfgC s -> finished cfgC s ->
+       close_code s = Some ws_close_abnormal \/ exists x, close_code s = Some x /\ In x (peer_closes s)).
+Proof. exact close_code_refuted_client. Qed.
+Print Assumptions C13_close_code_refuted_client.
+
+(* the two server witnesses, spelled out *)
+Example C13_witness_server_close_vs_receive :
+  exists s, reach cfgS s /\ finished cfgS s /\ tr_closing s = true /\ peer_closes s = [] /\ close_code s = Some ws_close_ok.
+Proof. exact witness_server_code_1000. Qed.
+Print Assumptions C13_witness_server_close_vs_receive.
+
+Example C13_witness_server_close_racing_eof :
+  exists s, reach cfgS s /\ finished cfgS s /\ lost s = true /\ peer_closes s = [] /\ sent s = [] /\
+            close_code s = Some ws_close_ok.
+Proof. exact witness_server_eof_code_1000. Qed.
+Print Assumptions C13_witness_server_close_racing_eof.
+
+(* ---- close() returns within the close timeout ---------------------------------------------------------
+   Client: the deadline is re-armed for every message read while waiting for the peer's close frame
+   (corpus/C13/client_close_timeout_restarts.json): close() called at time 0 with timeout 9 is still blocked at
+   time 16, its deadline now 17.  The server keeps one deadline. *)
+Example C13_close_deadline_extended_client :
+  exists s, reach cfgC s /\ now s = now (init cfgC) + 16 /\ c_close_tmo cfgC = 9 /\
+            t_pc (tasks s 0) = PCloseRead KTop /\ t_tmo (tasks s 0) = Some (now (init cfgC) + 17) /\ ready s = [].
+Proof. exact witness_client_deadline_extended. Qed.
+Print Assumptions C13_close_deadline_extended_client.
+
+Example C13_close_deadline_kept_server :
+  exists s, reach cfgS s /\ now s = now (init cfgS) + 16 /\
+            t_pc (tasks s 0) = PDone (RBool true) /\ close_code s = Some ws_close_abnormal /\ tr_closing s = true.
+Proof. exact witness_server_deadline_kept. Qed.
+Print Assumptions C13_close_deadline_kept_server.
+
+(* ---- non-vacuity: clean closing handshakes are reachable finished states ----------------------------- *)
+Example C13_example_clean_server :
+  exists s, reach cfgS s /\ finished cfgS s /\ tr_closing s = true /\ cw_leak s = false /\
+            sent s = [FClose ws_close_ok] /\ close_code s = Some 4001 /\ t_pc (tasks s 0) = PDone (RMsg (MClose 4001)).
+Proof. exact witness_clean_server. Qed.
+Print Assumptions C13_example_clean_server.
+
+Example C13_example_clean_client :
+  exists s, reach cfgC s /\ finished cfgC s /\ tr_closing s = true /\ cw_leak s = false /\
+            sent s = [FClose 1000] /\ close_code s = Some 4002 /\ t_pc (tasks s 1) = PDone (RBool true).
+Proof. exact witness_clean_client. Qed.
+Print Assumptions C13_example_clean_client.
